@@ -287,9 +287,10 @@ pub fn parse_file_internal(context: &ParseContext) -> Result<(), Error> {
     let mut source = String::new();
     file.read_to_string(&mut source)?;
 
+    let known_paths = include_paths.clone();
     let include_paths = RefCell::new(include_paths);
 
-    let context = ParseContext {
+    let file_context = ParseContext {
         current_path,
         include_paths,
         common_context,
@@ -299,7 +300,12 @@ pub fn parse_file_internal(context: &ParseContext) -> Result<(), Error> {
         include_depth,
     };
 
-    parse(source.as_str(), &context)?;
+    parse(source.as_str(), &file_context)?;
+
+    // what .includepath directives of this file added stays known to the including file
+    for added in file_context.include_paths.borrow().difference(&known_paths) {
+        context.include_paths.borrow_mut().insert(added.clone());
+    }
 
     Ok(())
 }
